@@ -80,7 +80,7 @@ CONSTANTS Routes <- TrRoutes
   KnownDefects <- AllKnownDefects
 CHECK_DEADLOCK FALSE
 """
-MODEL_ACTIONS = ["DeriveCertReqs", "Dial", "ProxyHandshake", "Tunnel", "BuildContext", "DecideWhoChecksHostname",
+MODEL_ACTIONS = ["PriorConnection", "DeriveCertReqs", "Dial", "ProxyHandshake", "Tunnel", "BuildContext", "DecideWhoChecksHostname",
                  "LoadCAs", "Handshake", "AssertFingerprint", "MatchHostname", "NoPostHandshakeCheck", "ComputeIsVerified",
                  "Warn", "SendRequest"]
 CLASSES = ["SSLErrorBeforeRequest", "SentVerified", "SentUnverifiedWarned", "ConfigRefused"]
@@ -173,7 +173,8 @@ def select_quick(lattice, seed, total, stacks):
 def _abstract(o):
     """Raw observation -> JSON for the trace monitor (no judgement: renaming / null removal only)."""
     return {"status": int(o["status"] or 0), "exc": list(o["exc"]), "warned": bool(o["warned"]),
-            "joined": bool(o["joined"]),
+            "joined": bool(o["joined"]) and (o.get("prior") is None or bool(o["prior"].get("joined", True))),
+            "prior": ("na" if o.get("prior") is None else "sent" if o["prior"]["status"] == 200 else "failed"),
             "conns": [{"hs": bool(c["hs"]), "req": bool(c["req"]), "eof": bool(c["eof"]), "sni": str(c["sni"]),
                        "connect": bool(c["connect_line"] and c["connect_line"].startswith("CONNECT ")),
                        "proxy_hs": {None: "na", True: "true", False: "false"}[c["proxy_hs"]]} for c in o["conns"]],
@@ -298,7 +299,7 @@ def facts_of(clause, case):
     p = case["point"]
     obs = case["observed"]
     return {"clause": clause, "route": p["route"], "backend": p["backend"], "reqs": p["reqs"], "fp": p["fp"],
-            "ctx": p["ctx"], "casrc": p.get("casrc"), "issuer": p["issuer"], "ah": p["ah"], "expect": case.get("expect"), "mode": case.get("mode"),
+            "ctx": p["ctx"], "casrc": p.get("casrc"), "hist": p.get("hist"), "issuer": p["issuer"], "ah": p["ah"], "expect": case.get("expect"), "mode": case.get("mode"),
             "warned": bool(obs["warned"]),
             "reported_verified": any(x["at"] == "request" and x["v"] for x in obs["seen"]),
             "proxy_reported_verified": any(x["at"] == "request" and x["pv"] == "true" for x in obs["seen"]),
@@ -323,11 +324,11 @@ def report_bad(rep, findings, clause, case):
 
 # ------------------------------------------------------------------------------------ run
 REFUTE_CFG = """SPECIFICATION Spec
-CONSTANTS Routes <- DirectRoute
+CONSTANTS Routes <- {routes}
   Backends <- AllBackends
   Hosts <- DnsHostOnly
   Sans <- TwoSans
-  KnownDefects <- OnlyDefaultStoreDeviation
+  KnownDefects <- {deviation}
   EmitMode = "sel"
   ShardLo = 0
   ShardHi = 0
@@ -338,19 +339,21 @@ CHECK_DEADLOCK FALSE
 """
 
 
-def refute_deviation(rep):
-    """The named deviation DefaultStoreAlsoTrusted (load_default_certs guard forgets ca_cert_data) is not
-    in the code; TLC must REFUTE it: with the deviation switched on the model has to violate
-    SentImpliesDemandedPassed.  A spec that cannot see the deviation is a machinery failure."""
-    r = tlc.run("MC_TLSVerify", REFUTE_CFG, workers="auto", files={"sel.json": "[]"}, env={"SEL_FILE": "sel.json"},
-                heap="3g", timeout=3600, expect_fail=True)
-    rep.stage1.append({"run": "MC_TLSVerify refute DefaultStoreAlsoTrusted (violation expected)",
+def refute_deviation(rep, name, deviation, routes):
+    """A named deviation that is NOT in the code must be REFUTED by TLC: with it switched on the model has
+    to violate SentImpliesDemandedPassed.  A spec that cannot see the deviation is a machinery failure.
+      DefaultStoreAlsoTrusted      the load_default_certs guard forgets ca_cert_data
+      HostnameOwnerDecidedUpFront  'who matches the hostname' decided from the arguments, not from the live
+                                   context.check_hostname that earlier legs / connections may have flipped"""
+    r = tlc.run("MC_TLSVerify", REFUTE_CFG.format(routes=routes, deviation=deviation), workers="auto",
+                files={"sel.json": "[]"}, env={"SEL_FILE": "sel.json"}, heap="3g", timeout=3600, expect_fail=True)
+    rep.stage1.append({"run": f"MC_TLSVerify refute {name} (violation expected)",
                        "distinct_states": r.distinct, "states_generated": r.generated, "depth": r.depth,
                        "wall_s": round(r.wall, 2), "violated": r.violated})
     if "SentImpliesDemandedPassed" not in r.violated:
-        raise tlc.MachineryError("TLC did not refute the deviation DefaultStoreAlsoTrusted: the specification cannot "
-                                 f"see a default trust store loaded next to ca_cert_data ({r.violated}, {r.error})")
-    rep.extra["refuted_deviations"] = ["DefaultStoreAlsoTrusted"]
+        raise tlc.MachineryError(f"TLC did not refute the deviation {name}: the specification cannot see it "
+                                 f"({r.violated}, {r.error})")
+    rep.extra.setdefault("refuted_deviations", []).append(name)
 
 
 def stage1(rep, routes, hosts, sans="AllSans", live=False, defects=False):
@@ -400,7 +403,7 @@ def stage1(rep, routes, hosts, sans="AllSans", live=False, defects=False):
 def run(rep):
     quick = rep.tier == "quick"
     rep.rule = ("one case = one lattice point (cert_reqs x assert_hostname x assert_fingerprint x server_hostname x "
-                "ssl_context x CA source (ca_certs / ca_cert_data / ca_cert_dir / caller context / none = default store) x backend x route x issuer x SAN shape x host form) executed with a real TLS handshake; "
+                "ssl_context (fresh or reused after a connection with assert_hostname / a pin) x CA source (ca_certs / ca_cert_data / ca_cert_dir / caller context / none = default store) x backend x route x issuer x SAN shape x host form) executed with a real TLS handshake; "
                 "non-trivial = the Rules expect anything other than a plain verified send (a demanded check fails, "
                 "latitude applies, the config is refused, or the connection is unvalidated and must warn)")
     rep.assumptions = ["chain validation, digests and the handshake are OpenSSL's (environment facts fixed by how "
@@ -410,16 +413,18 @@ def run(rep):
     if quick:
         # the model distinguishes host spellings only as DNS name vs IP literal
         # (and SAN shapes only through the name-truth table: DNS-type shapes with the DNS host, the rest with the IP)
-        # (and SAN shapes only through the name-truth table; exact / cn_only / ip_mismatch give pass / cn / fail
-        # for the DNS host.  IP hosts, the other shapes and the model-checking refutation run: thorough tier;
-        # the deviation is refuted on its witness by an ASSUME of MC_TLSVerify in every run)
+        # (and SAN shapes only through the name-truth table; exact / ip_mismatch give pass / fail for the DNS
+        # host, the commonName-only shape rides on the small as-is run.  IP hosts, the other shapes and the
+        # model-checking refutation runs: thorough tier; both named deviations are refuted on their
+        # witnesses by ASSUMEs of MC_TLSVerify in every run)
         lattice, npoints = stage1(rep, "AllRoutes", "DnsHostOnly", "QuickSans")
-        stage1(rep, "PinnedRoute", "DnsHostOnly", "TwoSans", defects=True)
+        stage1(rep, "PinnedRoute", "DnsHostOnly", "DnsSans", defects=True)
     else:
         stage1(rep, "NoTlsProxyRoutes", "SmallHosts", "DnsSans", live=True)
         lattice, npoints = stage1(rep, "AllRoutes", "AllHosts")
         stage1(rep, "PinnedRoute", "AllHosts", defects=True)
-        refute_deviation(rep)
+        refute_deviation(rep, "DefaultStoreAlsoTrusted", "OnlyDefaultStoreDeviation", "DirectRoute")
+        refute_deviation(rep, "HostnameOwnerDecidedUpFront", "OnlyUpFrontDeviation", "SharedRoutes")
     factors = lattice["factors"]
     radices = [len(f["levels"]) for f in factors]
     if factors[-1]["name"] != "stack":
